@@ -8,6 +8,11 @@ decimal approximation.  Sources:
   is called there (positional, default tolerances read from math.isclose's signature);
 * pyatv.protocols.raop: INITIAL_VOLUME, step and clamp bound of RaopAudio.volume_up/down;
 * pyatv.protocols.mrp: step, clamp bound and early-return level of MrpAudio.volume_up/down;
+  (steps, bounds, stop levels and the mute sentinel are always PROBED on the real code — the
+  real methods run on an instance whose public volume / set_volume are a settable level and a
+  recorder — and additionally read from the source, in the method or in a helper it calls,
+  literals or named constants; a recognised source shape must agree with the probe, an
+  unrecognised one falls back to the probe and the Gen file says so)
 * pyatv.core.facade: the two bounds of the FacadeAudio.volume / set_volume guards: the range
   test is read from the source — inline or in a helper it calls (module-level function or
   method of the class, one level), in any equivalent spelling (chained comparison, negated,
@@ -58,14 +63,16 @@ def _num(node):
     raise ValueError("not a numeric literal: " + ast.dump(node))
 
 
-def _step_and_bound(fn, which, op):
-    """find `min|max(<expr> +|- STEP, BOUND)` inside fn -> (STEP, BOUND)"""
+def _step_and_bound(fn, which, op, scope=None):
+    """find `min|max(<expr> +|- STEP, BOUND)` inside fn -> (STEP, BOUND); STEP and BOUND may be
+    literals or names that resolve to numbers in `scope`"""
     found = []
+    num = (lambda n: _const(n, scope)) if scope is not None else _num
     for node in ast.walk(fn):
         if isinstance(node, ast.Call) and isinstance(node.func, ast.Name) and node.func.id == which and len(node.args) == 2:
             a, b = node.args
             if isinstance(a, ast.BinOp) and isinstance(a.op, op):
-                found.append((_num(a.right), _num(b)))
+                found.append((num(a.right), num(b)))
     if len(found) != 1:
         raise ValueError(f"{fn.name}: expected exactly one {which}(x {op.__name__} STEP, BOUND), found {found}")
     return found[0]
@@ -299,7 +306,7 @@ def _isclose_defaults():
     return float(m.group(1)), float(m.group(2))
 
 
-def _mute_sentinel(fn):
+def _mute_sentinel(fn, scope=None):
     """pct_to_dbfs: `if math.isclose(level, 0.0): return SENTINEL` -> (compared-to, SENTINEL)"""
     for node in ast.walk(fn):
         if isinstance(node, ast.If) and isinstance(node.test, ast.Call):
@@ -311,8 +318,160 @@ def _mute_sentinel(fn):
                 ret = [n for n in node.body if isinstance(n, ast.Return)]
                 if len(ret) != 1:
                     raise ValueError("no single return under the isclose test")
-                return _num(call.args[1]), _num(ret[0].value)
+                num = (lambda n: _const(n, scope)) if scope is not None else _num
+                return num(call.args[1]), num(ret[0].value)
     raise ValueError("pct_to_dbfs: isclose/mute branch not found")
+
+
+def _source_step(fn_obj, owner, which, op):
+    """(STEP, BOUND) read from the source of fn_obj or of a helper it calls (one level), with
+    names resolved; None when no such expression is recognised"""
+    fn = inspect.unwrap(fn_obj)
+    for f in [fn] + _callees(fn_obj, owner):
+        try:
+            return _step_and_bound(_fn_ast(f), which, op, f.__globals__)
+        except Exception:
+            continue
+    return None
+
+
+def _run(coro):
+    import asyncio
+    loop = asyncio.new_event_loop()
+    try:
+        return loop.run_until_complete(coro)
+    finally:
+        loop.close()
+
+
+def _probe_steps_raop(raop):
+    """Behavioural view of RaopAudio.volume_up / volume_down: the REAL methods are run on a
+    subclass whose public `volume` / `set_volume` are a settable level and a recorder.
+    -> (up_step, up_bound, down_step, down_bound)"""
+    calls = []
+
+    class Probe(raop.RaopAudio):
+        level = 50.0
+
+        def __init__(self):          # no playback manager / dispatcher needed
+            pass
+
+        @property
+        def volume(self):
+            return self.level
+
+        async def set_volume(self, level):
+            calls.append(level)
+
+    def arg(method, level):
+        probe = Probe()
+        probe.level = level
+        del calls[:]
+        _run(getattr(probe, method)())
+        if len(calls) != 1:
+            raise ValueError(f"RaopAudio.{method} at {level}: set_volume called {len(calls)} times")
+        return calls[0]
+
+    up_step, down_step = arg("volume_up", 50.0) - 50.0, 50.0 - arg("volume_down", 50.0)
+    up_bound, down_bound = arg("volume_up", 1000.0), arg("volume_down", -1000.0)
+    if up_bound == 1000.0 + up_step or down_bound == -1000.0 - down_step:
+        raise ValueError("RaopAudio.volume_up/volume_down do not clamp")
+    for lvl in (0.0, 33.0, 97.0, 100.0):     # the formula holds elsewhere too
+        if arg("volume_up", lvl) != min(lvl + up_step, up_bound) or arg("volume_down", lvl) != max(lvl - down_step, down_bound):
+            raise ValueError(f"RaopAudio step at {lvl} is not min/max(level +- step, bound)")
+    return up_step, up_bound, down_step, down_bound
+
+
+def _probe_steps_mrp(mrp):
+    """Behavioural view of MrpAudio.volume_up / volume_down with absolute-only volume control:
+    a REAL MrpAudio (public `set_volume` replaced by a recorder) is fed the availability and
+    volume messages through the listeners it registers.
+    -> (up_step, up_bound, up_stop, down_step, down_bound, down_stop)"""
+    from pyatv.const import Protocol
+    from pyatv.core import CoreStateDispatcher, ProtocolStateDispatcher
+    from pyatv.protocols.mrp import protobuf
+
+    calls = []
+
+    class Probe(mrp.MrpAudio):
+        async def set_volume(self, level):
+            calls.append(level)
+
+    class Info:
+        clusterID = None
+        deviceUID = "gen-uid"
+
+    class DeviceInfo:
+        def inner(self):
+            return Info()
+
+    class FakeProtocol:
+        device_info = DeviceInfo()
+
+        def __init__(self):
+            self.listeners = {}
+
+        def listen_to(self, msgtype, func):
+            self.listeners[msgtype] = func
+
+    async def run(method, level):
+        proto = FakeProtocol()
+        audio = Probe(proto, ProtocolStateDispatcher(Protocol.MRP, CoreStateDispatcher()))
+        msg = protobuf.ProtocolMessage()
+        msg.type = protobuf.ProtocolMessage.VOLUME_CONTROL_AVAILABILITY_MESSAGE
+        msg.inner().volumeControlAvailable = True
+        msg.inner().volumeCapabilities = protobuf.VolumeCapabilities.Absolute
+        await proto.listeners[protobuf.VOLUME_CONTROL_AVAILABILITY_MESSAGE](msg)
+        msg = protobuf.ProtocolMessage()
+        msg.type = protobuf.ProtocolMessage.VOLUME_DID_CHANGE_MESSAGE
+        msg.inner().outputDeviceUID = "gen-uid"
+        msg.inner().volume = level / 100.0
+        await proto.listeners[protobuf.VOLUME_DID_CHANGE_MESSAGE](msg)
+        if audio.volume != level:
+            raise ValueError(f"MrpAudio reports {audio.volume!r} after the device said {level!r}")
+        del calls[:]
+        await getattr(audio, method)()
+        return list(calls)
+
+    def arg(method, level):
+        got = _run(run(method, level))
+        if len(got) != 1:
+            raise ValueError(f"MrpAudio.{method} at {level}: set_volume called {len(got)} times")
+        return got[0]
+
+    up_step, down_step = arg("volume_up", 50.0) - 50.0, 50.0 - arg("volume_down", 50.0)
+    up_bound, down_bound = arg("volume_up", 99.5), arg("volume_down", 0.5)
+    if up_bound == 99.5 + up_step or down_bound == 0.5 - down_step:
+        raise ValueError("MrpAudio.volume_up/volume_down do not clamp")
+    if _run(run("volume_up", up_bound)) or _run(run("volume_down", down_bound)):
+        raise ValueError("MrpAudio steps at the end stop")
+    for lvl in (33.0, 97.0, 3.0):
+        if arg("volume_up", lvl) != min(lvl + up_step, up_bound) or arg("volume_down", lvl) != max(lvl - down_step, down_bound):
+            raise ValueError(f"MrpAudio step at {lvl} is not min/max(level +- step, bound)")
+    return up_step, up_bound, up_bound, down_step, down_bound, down_bound
+
+
+def _probe_mute(utils):
+    """Behavioural view of the mute re-mapping in pct_to_dbfs -> (level, sentinel)"""
+    sentinel = utils.pct_to_dbfs(0.0)
+    if utils.pct_to_dbfs(-0.0) != sentinel:
+        raise ValueError("pct_to_dbfs(-0.0) differs from pct_to_dbfs(0.0)")
+    if utils.pct_to_dbfs(math.nextafter(0.0, 1.0)) == sentinel or utils.pct_to_dbfs(1e-9) == sentinel:
+        raise ValueError("pct_to_dbfs maps non-zero levels to the mute sentinel")
+    if utils.DBFS_MIN <= sentinel <= utils.DBFS_MAX:
+        raise ValueError("pct_to_dbfs(0.0) is not a separate mute sentinel")
+    return 0.0, sentinel
+
+
+def _agree(name, source, probed, how):
+    """source (may be None) and probed view of one fact; they must agree when both exist"""
+    if source is None:
+        how.append(f"{name}: shape not recognised in the source, PROBED on the real code")
+    elif tuple(float(x) for x in source) != tuple(float(x) for x in probed):
+        raise ValueError(f"{name}: the source says {source!r} but the real code behaves as {probed!r}")
+    else:
+        how.append(f"{name}: read from the source, confirmed by probing the real code")
+    return probed
 
 
 def generate():
@@ -320,13 +479,19 @@ def generate():
     from pyatv.protocols import mrp, raop
     from pyatv.protocols.airplay import utils
 
+    how = []
     rel_tol, abs_tol = _isclose_defaults()
-    close_to, mute = _mute_sentinel(_fn_ast(utils.pct_to_dbfs))
-    raop_up = _step_and_bound(_fn_ast(raop.RaopAudio.volume_up), "min", ast.Add)
-    raop_down = _step_and_bound(_fn_ast(raop.RaopAudio.volume_down), "max", ast.Sub)
-    mrp_up_fn, mrp_down_fn = _fn_ast(mrp.MrpAudio.volume_up), _fn_ast(mrp.MrpAudio.volume_down)
-    mrp_up = _step_and_bound(mrp_up_fn, "min", ast.Add)
-    mrp_down = _step_and_bound(mrp_down_fn, "max", ast.Sub)
+    try:
+        mute_src = _mute_sentinel(_fn_ast(utils.pct_to_dbfs), utils.pct_to_dbfs.__globals__)
+    except Exception:
+        mute_src = None
+    close_to, mute = _agree("mute", mute_src, _probe_mute(utils), how)
+    r_up_s, r_up_b, r_dn_s, r_dn_b = _probe_steps_raop(raop)
+    raop_up = _agree("RaopAudio.volume_up", _source_step(raop.RaopAudio.volume_up, raop.RaopAudio, "min", ast.Add), (r_up_s, r_up_b), how)
+    raop_down = _agree("RaopAudio.volume_down", _source_step(raop.RaopAudio.volume_down, raop.RaopAudio, "max", ast.Sub), (r_dn_s, r_dn_b), how)
+    m_up_s, m_up_b, m_up_stop, m_dn_s, m_dn_b, m_dn_stop = _probe_steps_mrp(mrp)
+    mrp_up = _agree("MrpAudio.volume_up", _source_step(mrp.MrpAudio.volume_up, mrp.MrpAudio, "min", ast.Add), (m_up_s, m_up_b), how)
+    mrp_down = _agree("MrpAudio.volume_down", _source_step(mrp.MrpAudio.volume_down, mrp.MrpAudio, "max", ast.Sub), (m_dn_s, m_dn_b), how)
     read_lo, read_hi, set_lo, set_hi, guard_how = _facade_guards(facade)
 
     defs = [
@@ -334,21 +499,21 @@ def generate():
         ("dbfsMax", utils.DBFS_MAX, "pyatv.protocols.airplay.utils.DBFS_MAX"),
         ("pctMin", utils.PERCENTAGE_MIN, "pyatv.protocols.airplay.utils.PERCENTAGE_MIN"),
         ("pctMax", utils.PERCENTAGE_MAX, "pyatv.protocols.airplay.utils.PERCENTAGE_MAX"),
-        ("muteDbfs", mute, "value returned by pct_to_dbfs for a muted level"),
+        ("muteDbfs", mute, "value returned by pct_to_dbfs for a muted level. " + how[0]),
         ("muteLevel", close_to, "level that pct_to_dbfs compares with (math.isclose) to detect mute"),
         ("iscloseRelTol", rel_tol, "math.isclose default rel_tol (pct_to_dbfs passes none)"),
         ("iscloseAbsTol", abs_tol, "math.isclose default abs_tol"),
         ("raopInitialVolume", raop.INITIAL_VOLUME, "pyatv.protocols.raop.INITIAL_VOLUME"),
-        ("raopUpStep", raop_up[0], "RaopAudio.volume_up: min(volume + STEP, BOUND)"),
+        ("raopUpStep", raop_up[0], "RaopAudio.volume_up: min(volume + STEP, BOUND). " + how[1]),
         ("raopUpBound", raop_up[1], ""),
-        ("raopDownStep", raop_down[0], "RaopAudio.volume_down: max(volume - STEP, BOUND)"),
+        ("raopDownStep", raop_down[0], "RaopAudio.volume_down: max(volume - STEP, BOUND). " + how[2]),
         ("raopDownBound", raop_down[1], ""),
-        ("mrpUpStep", mrp_up[0], "MrpAudio.volume_up (absolute control): min(volume + STEP, BOUND)"),
+        ("mrpUpStep", mrp_up[0], "MrpAudio.volume_up (absolute control): min(volume + STEP, BOUND). " + how[3]),
         ("mrpUpBound", mrp_up[1], ""),
-        ("mrpUpStop", _early_return_level(mrp_up_fn), "MrpAudio.volume_up returns at once at this level"),
-        ("mrpDownStep", mrp_down[0], "MrpAudio.volume_down (absolute control): max(volume - STEP, BOUND)"),
+        ("mrpUpStop", m_up_stop, "MrpAudio.volume_up returns at once at this level (probed: no set_volume there)"),
+        ("mrpDownStep", mrp_down[0], "MrpAudio.volume_down (absolute control): max(volume - STEP, BOUND). " + how[4]),
         ("mrpDownBound", mrp_down[1], ""),
-        ("mrpDownStop", _early_return_level(mrp_down_fn), "MrpAudio.volume_down returns at once at this level"),
+        ("mrpDownStop", m_dn_stop, "MrpAudio.volume_down returns at once at this level (probed: no set_volume there)"),
         ("facadeReadLo", read_lo, "FacadeAudio.volume guard: LO <= volume <= HI (NaN, +-inf refused). " + guard_how[0]),
         ("facadeReadHi", read_hi, ""),
         ("facadeSetLo", set_lo, "FacadeAudio.set_volume guard: LO <= level <= HI (NaN, +-inf refused). " + guard_how[1]),
